@@ -181,6 +181,9 @@ EvAll(e, L) ==
                                  ELSE [t |-> "errfield", f |-> e.f, c |-> L["error"].c, site |-> L["error"].site],
                            ev |-> <<>>] }
     [] e.x = "dflt"  -> { [r |-> VDefault, ev |-> <<>>] }
+    \* import: dotted.name -- the named object, or the import system's error (which neither `|` nor exists: absorbs:
+    \* it is not a lookup-type exception); the expression takes no alternatives of its own
+    [] e.x = "imp"   -> { [r |-> IF e.ok THEN e.v ELSE Exc("ModuleNotFoundError"), ev |-> <<>>] }
     \* attrs['name']: a static attribute of the innermost element whose definitions are in effect
     [] e.x = "attrs" -> { [r |-> LET i == AttrsFrame(Len(ctl)) IN
                                  IF i = 0 THEN Exc("NameError")
